@@ -21,6 +21,7 @@ REGISTRY = {
     "C08": "constructors",
     "C09": "metric",
     "C10": "constructions",
+    "C11": "crossratio",
     "C12": "purity",
     "C16": "membership",
     "C17": "measures",
